@@ -42,7 +42,7 @@ def gen_cases(tier, seed):
     else:
         base = mapcases.exhaustive_shape_cases(
             rng, per_shape_variants=False) + \
-            mapcases.random_large_cases(rng, 150, max_leaves=20,
+            mapcases.random_large_cases(rng, 450, max_leaves=20,
                                         max_cells=60)
     for i, c in enumerate(base):
         c.pop('flatten', None)
